@@ -13,6 +13,9 @@ CHECKS = {
  "C03": dict(technique="round-trip PBT print->parse with reference-parser explanation of differences; determinism and fixpoint",
              text="Generated accepted documents and values are printed with 14 indent settings through print_ast and ASTPrinter; printed text must be accepted, parse to an equal tree (modulo positions and description block flag), print deterministically and be a fixpoint.",
              note="Trusted: tree comparison walker; reference parser only used to attribute a difference to printer vs parser.", ref="3/C03"),
+ "C04": dict(technique="differential PBT against an independent reference executor over generated schemas, operations, worlds and request histories",
+             text="Generated schema specs, valid-by-construction operations, variable payloads and deterministic resolver worlds are executed through five entry points in drawn histories on one schema object; ordered data and the error multiset (path, resolver message/extensions, location) must equal the reference executor's.",
+             note="Trusted: vlib/ref/exec.py + vlib/ref/parser.py (goldens); argument zones left to C07 are not generated.", ref="3/C04"),
 }
 ALL = ["C%02d" % i for i in range(1, 21)]
 NA_REASON = "check not built yet (work in progress; see DESIGN.md section 3 for the planned design)"
